@@ -44,9 +44,9 @@ import (
 
 type Replay struct {
 	Harness string            `json:"harness"`
-	Label   string            `json:"label"`   // assertion expected to fail ("" for a path witness)
-	Values  map[string]string `json:"values"`  // nondet name -> value (decimal for ints, hex for bytes, "nil")
-	Probes  map[string]string `json:"probes"`  // probe label -> expected value
+	Label   string            `json:"label"`  // assertion expected to fail ("" for a path witness)
+	Values  map[string]string `json:"values"` // nondet name -> value (decimal for ints, hex for bytes, "nil")
+	Probes  map[string]string `json:"probes"` // probe label -> expected value
 	Note    string            `json:"note"`
 	Tier    int               `json:"tier"`
 	Dir     string            `json:"dir"`
@@ -433,10 +433,10 @@ func NewEnv() *Env {
 
 // BeginTx marks the start of the transaction under test: Writes() and Events() report what
 // happened after the mark.
-func (e *Env) BeginTx()           { envBeginTx(e.h) }
-func (e *Env) Writes() []Write    { return envWrites(e.h) }
+func (e *Env) BeginTx()                { envBeginTx(e.h) }
+func (e *Env) Writes() []Write         { return envWrites(e.h) }
 func (e *Env) Events() []proto.Message { return envEvents(e.h) }
-func (e *Env) NumEvents() int     { return len(envEvents(e.h)) }
+func (e *Env) NumEvents() int          { return len(envEvents(e.h)) }
 
 // KeysReadBy runs f and returns the store keys it read (used to name entries observationally).
 func (e *Env) KeysReadBy(f func()) [][]byte {
@@ -587,7 +587,9 @@ func (s recKV) Delete(key []byte) error {
 	s.ne.writes = append(s.ne.writes, Write{Key: append([]byte{}, key...), Delete: true})
 	return s.inner.Delete(key)
 }
-func (s recKV) Iterator(start, end []byte) (store.Iterator, error) { return s.inner.Iterator(start, end) }
+func (s recKV) Iterator(start, end []byte) (store.Iterator, error) {
+	return s.inner.Iterator(start, end)
+}
 func (s recKV) ReverseIterator(start, end []byte) (store.Iterator, error) {
 	return s.inner.ReverseIterator(start, end)
 }
@@ -617,11 +619,11 @@ func (b *Bank) GetBalance(ctx context.Context, addr sdk.AccAddress, denom string
 }
 
 type FTF struct {
-	MintDenom string
-	Burns     []fiattokenfactorytypes.MsgBurn
-	BurnErrs  []error
-	Mints     []fiattokenfactorytypes.MsgMint
-	MintErrs  []error
+	MintDenom  string
+	Burns      []fiattokenfactorytypes.MsgBurn
+	BurnErrs   []error
+	Mints      []fiattokenfactorytypes.MsgMint
+	MintErrs   []error
 	DenomReads int
 }
 
